@@ -209,9 +209,19 @@ class StmtMixin:
         """An empty list/dict assigned to a name whose element kinds the contract declares."""
         tc = self.top_contract
         kinds = getattr(tc, 'kinds', None) if tc is not None else None
+        nm = tgt.id if isinstance(tgt, ast.Name) else (tgt.attr if isinstance(tgt, ast.Attribute) else None)
+        if kinds and nm in kinds and isinstance(v, VOpaque) and v.cls == 'NocaseDict' and getattr(v, 'empty_new', False) \
+                and isinstance(kinds[nm], tuple) and len(kinds[nm]) >= 2:
+            # NocaseDict() assigned to a name whose key/value kinds the contract declares: modelled as an (ordered) dict
+            k = kinds[nm]
+            kk, vk = k[0], k[1]
+            ordered = len(k) > 2 and k[2]
+            self.used_assumptions.add('A-CIMOBJ: NocaseDict() modelled as an insertion-ordered dict; keys differing only '
+                                      'in lexical case are outside the model')
+            return self.alloc(MapCell(kk, vk, z3.K(kind_sort(kk), False), z3.K(kind_sort(kk), self.default_term(vk)), (), None,
+                                      z3.Empty(z3.SeqSort(kind_sort(kk))) if ordered else None))
         if not kinds or not isinstance(v, VPtr):
             return v
-        nm = tgt.id if isinstance(tgt, ast.Name) else (tgt.attr if isinstance(tgt, ast.Attribute) else None)
         if nm not in kinds:
             return v
         c = self.cell(v)
